@@ -234,3 +234,96 @@ func VerifC20_OverlappingReconnectLoopsVT() {
 		}
 	}
 }
+
+// VerifC20_TwoSendersVT: two reply-expected sends at once, each with its own scripted outcome
+// {reply, peer reject, silence (T3), caller cancel}, and ONE preemption before each call
+// instruction either sender executes. A monitor samples the in-flight gauge at every transport
+// write: it is never negative and never above the number of sends whose frame is on the wire and
+// whose call has not returned. At the end: gauge 0, sent counter +2, error counter + (number of
+// T3 outcomes), nothing else moved, both registries empty.
+func VerifC20_TwoSendersVT() {
+	vsymExpect("done")
+	K := 320
+	v := newVConnection(SelectedState)
+	var out [2]int
+	out[0], out[1] = vsymChoose(4), vsymChoose(4) // 0 reply, 1 reject, 2 silence, 3 cancel
+	k := vsymChoose(K)
+	before := v.snap()
+	var ctxs [2]context.Context
+	var cancels [2]context.CancelFunc
+	for i := range ctxs {
+		ctxs[i], cancels[i] = context.WithCancel(context.Background())
+	}
+	written, returned := 0, 0
+	gaugeOK := true
+	v.tr.onWrite = func(w vwrite) {
+		if len(w.bytes) < 14 || w.bytes[9] != 0 || w.bytes[6]&0x80 == 0 {
+			return
+		}
+		g := v.c.Metrics().DataMsgInflightCount()
+		if g < 0 || g > int64(written-returned) {
+			gaugeOK = false
+		}
+		written++
+		// the stream byte tells the two primaries apart
+		i := int(w.bytes[6]&0x7F) - 1
+		var sys [4]byte
+		copy(sys[:], w.bytes[10:14])
+		switch out[i] {
+		case 0:
+			_ = v.c.DeliverOwnedFrame(dataFrame(0xFFFF, w.bytes[6]&0x7F, 2, sys, nil))
+		case 1:
+			v.c.RouteReply(NewRejectReqRaw(0xFFFF, 0, 0, sys, 3))
+		case 3:
+			cancels[i]()
+		}
+	}
+	var errs [2]error
+	var replies [2]*DataMessage
+	done := make(chan int, 2)
+	vsymPreemptAt(k)
+	for i := 0; i < 2; i++ {
+		go func() {
+			replies[i], errs[i] = v.c.SendDataMessage(ctxs[i], byte(i+1), 1, true, nil)
+			returned++
+			done <- i
+		}()
+	}
+	<-done
+	<-done
+	vsymPreemptAt(-1)
+	vsymPreemptCovered(K)
+	after := v.snap()
+	t3s := uint64(0)
+	for i := 0; i < 2; i++ {
+		switch out[i] {
+		case 0:
+			vsymAssert(errs[i] == nil && replies[i] != nil && replies[i].Stream() == byte(i+1), "each-sender-gets-its-own-reply")
+		case 1:
+			var re *RejectError
+			vsymAssert(errors.As(errs[i], &re), "reject-outcome")
+		case 2:
+			vsymAssert(errors.Is(errs[i], ErrT3Timeout), "t3-outcome")
+			t3s++
+		default:
+			vsymAssert(errors.Is(errs[i], context.Canceled), "cancel-outcome")
+		}
+	}
+	vsymAssert(gaugeOK, "inflight-gauge-never-negative-never-above-the-open-sends")
+	vsymAssert(after.inflight == 0, "inflight-gauge-zero-at-quiescence")
+	vsymAssert(after.send == before.send+2, "two-frames-sent-two-counted")
+	vsymAssert(after.errc == before.errc+t3s, "one-error-per-T3-outcome-only")
+	vsymAssert(after.drop == before.drop && after.async == before.async && after.recv == before.recv+uint64(c20Count(out, 0)), "no-other-counter-moved")
+	vsymAssert(v.e.replies.len() == 0, "registry-empty")
+	vsymReach("done")
+}
+
+func c20Count(out [2]int, x int) int {
+	n := 0
+	for _, o := range out {
+		if o == x {
+			n++
+		}
+	}
+	return n
+}
